@@ -230,3 +230,59 @@ func ramStores(c *rig.Ctx) {
 		c.Case(rig.Hash(uint64(i), r.U64(), 11))
 	})
 }
+
+// protocolStreams: byte streams that look like the traffic of serial peripherals (Game Boy
+// Printer packets with every command, link-cable handshakes, text with control characters):
+// the emulator forwards bytes, it does not interpret them.
+func protocolStreams(c *rig.Ctx) {
+	c.Require("protocol_stream_cases")
+	c.Part("protocol-streams", c.N(40, 400), func(i int64, r *rig.Rng) {
+		buf := &bytes.Buffer{}
+		m := rig.MustNew(rig.BlankROM(0, 0, 0), rig.Opts{SerialWriter: buf})
+		var want []byte
+		send := func(b ...byte) {
+			for _, v := range b {
+				m.Mem.Write(0xff01, v)
+				want = append(want, v)
+				if r.Chance(1, 3) {
+					m.Mem.Write(0xff02, r.Pick8([]uint8{0x81, 0x80, 0x01}))
+				}
+			}
+		}
+		for n := 0; n < 12; n++ {
+			switch r.Intn(4) {
+			case 0, 1: // printer packet: magic, command, compression, length, data, checksum, 2 status bytes
+				cmd := r.Pick8([]uint8{0x01, 0x02, 0x04, 0x0f, 0x08, r.U8()})
+				ln := r.Intn(40)
+				if cmd == 0x04 && r.Bool() {
+					ln = 0x280 / 16
+				}
+				send(0x88, 0x33, cmd, uint8(r.Intn(2)), uint8(ln), uint8(ln>>8))
+				sum := int(cmd) + ln&0xff + ln>>8
+				for k := 0; k < ln; k++ {
+					v := r.U8()
+					sum += int(v)
+					send(v)
+				}
+				send(uint8(sum), uint8(sum>>8), 0x00, 0x00)
+			case 2: // link handshake
+				send(0x60, 0x61, 0x01, 0x02, 0xfe, 0xfd, 0xd0, 0xd1, 0xd2)
+			case 3:
+				send([]byte("Passed\r\n\x1b[0m\x00\x7f\x88\x33")...)
+			}
+			for t := r.Intn(2000); t > 0; t-- {
+				m.Step()
+			}
+		}
+		if sb, sc := m.Mem.Read(0xff01), m.Mem.Read(0xff02); sb != 0xff || sc != 0xff {
+			c.Violate("sb-sc-readback", fmt.Sprintf("after protocol-like traffic and elapsed time SB reads %02X, SC reads %02X (both must read FF)", sb, sc), nil)
+			return
+		}
+		if !bytes.Equal(buf.Bytes(), want) {
+			c.Violate("protocol-stream-"+classOf(buf.Bytes(), want), fmt.Sprintf("peripheral-style traffic: %s", diff(buf.Bytes(), want)), nil)
+			return
+		}
+		c.Count("protocol_stream_cases", 1)
+		c.Case(rig.Hash(uint64(i), r.U64(), 13))
+	})
+}
